@@ -134,26 +134,57 @@ def block_function(with_branch):
     return 'template/block-function-%s' % ('branch' if with_branch else 'plain'), _program([Foo, Bar, ping, test, expr])
 
 
+def scope_without_declarations():
+    """fun <T> mk(): T = <bottom>   -- the function's scope holds a type parameter and nothing else"""
+    T = tp.TypeParameter('T')
+    mk = ast.FunctionDeclaration('mk', [], T, ast.BottomConstant(T), ast.FunctionDeclaration.FUNCTION, type_parameters=[T])
+    p = _program([mk])
+    p.context.add_type(ast.GLOBAL_NAMESPACE + ('mk',), 'T', T)
+    return 'template/scope-without-declarations', p
+
+
+_BUILDERS = {}
+
+
+def build(name):
+    """rebuild one template from its constructors (no pickling involved)"""
+    if not _BUILDERS:
+        all_templates()
+    fn, args = _BUILDERS[name]
+    return fn(*args)[1]
+
+
+def _reg(out, fn, *args):
+    r = fn(*args)
+    _BUILDERS[r[0]] = (fn, args)
+    out.append(r)
+
+
 def all_templates():
-    out = [nested_function(2), nested_function(4), nested_function(5), abstract_generic_method(0),
-           abstract_generic_method(1), block_function(0), block_function(1)]
+    out = []
+    for n in (2, 4, 5):
+        _reg(out, nested_function, n)
+    for k in (0, 1):
+        _reg(out, abstract_generic_method, k)
+        _reg(out, block_function, k)
+    _reg(out, scope_without_declarations)
     for f1 in (0, 1):
         for f2 in (0, 1):
             for full in (0, 1):
                 for local in (0, 1):
-                    out.append(diamond(f1, f2, full, local))
+                    _reg(out, diamond, f1, f2, full, local)
     for d in (0, 1):
         for a in (0, 1):
             for b in (0, 1):
                 for br in (0, 1):
                     if not d and (a or b):
                         continue        # var x: String = "s"; x = A()  is ill-typed to begin with
-                    out.append(reassign(d, a, b, br))
+                    _reg(out, reassign, d, a, b, br)
     for shape in range(4):
         for wa in (0, 1):
-            out.append(reassign_top(shape, wa))
+            _reg(out, reassign_top, shape, wa)
     for r in (0, 1):
-        for s in (0, 1):
+        for s_ in (0, 1):
             for t in (0, 1):
-                out.append(recursive(r, s, t))
+                _reg(out, recursive, r, s_, t)
     return out
